@@ -39,6 +39,7 @@ def canon(v, d=0):
 
 P, Q = "_refP_", "_refQ_"
 A, B = "_refA_", "_refB_"   # no leading double underscore: class bodies would mangle it
+V = "_refV_"
 
 
 def call(fn, *args):
@@ -80,6 +81,15 @@ class Ref(ast.NodeTransformer):
             probe = call(B, const(evt), self.p(node))
             return ast.copy_location(ast.Subscript(value=ast.Tuple(elts=[probe, expr], ctx=ast.Load()), slice=const(1), ctx=ast.Load()), expr)
         return expr
+
+    def as_expr(self, s):
+        """a subscript index as an ordinary expression: `a:b:c` is `slice(a, b, c)`"""
+        if isinstance(s, ast.Slice):
+            parts = [const(None) if x is None else x for x in (s.lower, s.upper)] + ([] if s.step is None else [s.step])
+            return ast.copy_location(call("slice", *parts), s)
+        if isinstance(s, ast.Tuple) and any(isinstance(e, ast.Slice) for e in s.elts):
+            return ast.copy_location(ast.Tuple(elts=[self.as_expr(e) for e in s.elts], ctx=ast.Load()), s)
+        return s
 
     def stmt_probe(self, evt, node):
         return ast.Expr(call(B, const(evt), self.p(node)))
@@ -151,6 +161,8 @@ class Ref(ast.NodeTransformer):
         self.in_chain = False                       # the index starts afresh
         s = self.visit(node.slice)
         self.in_chain = inside
+        if "before_subscript_slice" in self.ev or "after_subscript_slice" in self.ev:
+            s = self.after("after_subscript_slice", node, self.before("before_subscript_slice", node, self.as_expr(s)))
         evt = {ast.Load: "before_subscript_load", ast.Store: "before_subscript_store", ast.Del: "before_subscript_del"}[type(node.ctx)]
         if evt in self.ev:
             site = const(len(self.poss))
@@ -220,13 +232,32 @@ class Ref(ast.NodeTransformer):
             if "before_stmt" in self.ev:
                 out.append(self.stmt_probe("before_stmt", orig))
             new = self.visit(s)
+            want_mod = module and "after_module_stmt" in self.ev
+            if want_mod and isinstance(new, ast.Expr):
+                # the value of a module-level expression statement is what after_module_stmt carries
+                new = ast.copy_location(ast.Assign(targets=[ast.Name(V, ast.Store())], value=new.value), new)
             out.append(new)
             if "after_stmt" in self.ev and not isinstance(orig, ast.Return):
                 out.append(self.stmt_probe("after_stmt", orig))
+            if want_mod:
+                out.append(ast.Expr(call(A, const("after_module_stmt"), self.p(orig), ast.Name(V, ast.Load()) if isinstance(orig, ast.Expr) else const(None))))
         return out
 
     def visit_Module(self, node):
-        node.body = self.body(node.body, module=True, docstring=True)
+        orig = node
+        body = self.body(node.body, module=True, docstring=True)
+        # init_module: once, before the first statement (after the docstring and the __future__ imports, which are not statements
+        # that run); exit_module: once, after the last statement, when the module ends normally
+        k = 0
+        while k < len(body) and ((k == 0 and isinstance(body[k], ast.Expr) and isinstance(body[k].value, ast.Constant) and isinstance(body[k].value.value, str)
+                                  and node.body and body[k] is node.body[0])
+                                 or (isinstance(body[k], ast.ImportFrom) and body[k].module == "__future__")):
+            k += 1
+        if "init_module" in self.ev:
+            body.insert(k, self.stmt_probe("init_module", orig))
+        if "exit_module" in self.ev:
+            body.append(self.stmt_probe("exit_module", orig))
+        node.body = body
         return node
 
     def visit_Expr(self, node):
@@ -356,6 +387,8 @@ SUPPORTED = {
     "before_lambda", "before_assign_rhs", "before_augassign_rhs", "before_return", "before_for_iter", "before_argument", "before_load_complex_symbol",
     # the outermost link of an attribute / subscript / call chain in load position
     "after_load_complex_symbol",
+    # the index of a subscript (deferred before / value after), module brackets, module-level statements
+    "before_subscript_slice", "after_subscript_slice", "init_module", "exit_module", "after_module_stmt",
 }
 
 
